@@ -471,6 +471,35 @@ def dependents_closure(spec, roots):
     return clo
 
 
+def lazy_needs_closure(spec, roots):
+    """what only the roots bring into a run: their setup-tasks / getargs sources (created only once the root reaches
+    status `run`) and everything those depend on.  When a root is doomed in one run (reported unmet / ignored at its
+    first selection) and not in the other, these tasks are processed in one run only."""
+    every = {t['name']: t for t in all_specs(spec)}
+    target_of = {tg: t['name'] for t in every.values() for tg in t['targets']}
+    def deps_of(t):
+        d = set(t['task_dep']) | set(t['setup']) | set(t['calc_dep']) | set(t['result_dep']) | set(v[0] for v in t['getargs'].values())
+        return d | set(target_of[f] for f in t['file_dep'] if f in target_of)
+    todo = []
+    for r in roots:
+        t = every.get(r)
+        if t:
+            todo += list(set(t['setup']) | set(v[0] for v in t['getargs'].values()))
+    seen = set()
+    while todo:
+        x = todo.pop()
+        if x in seen:
+            continue
+        seen.add(x)
+        if x in every:
+            todo += list(deps_of(every[x]))
+    return seen
+
+
+def reach_of(spec, roots):
+    return dependents_closure(spec, roots) | lazy_needs_closure(spec, roots)
+
+
 def differing_tasks(spec, ns, np_):
     """names of the tasks about which the two normalised runs disagree ('?...' = something not attributable to a task)"""
     every = all_specs(spec)
@@ -1236,7 +1265,7 @@ def part_b(ctx, out):
                     detail = '; '.join('%s (%s)' % (k, first_diff(ns_cmp[k], np_[k], k)) for k, _ in diffs)
                     common_case = dict(part='B', spec=slim, cfg=list(cfg), differing_tasks=sorted(who), serial_outcome=ns_cmp['outcome'], parallel_outcome=np_['outcome'],
                                        serial_executed=ns_cmp['executed'], parallel_executed=np_['executed'])
-                    if r1 and who <= dependents_closure(spec, r1):
+                    if r1 and who <= reach_of(spec, r1):
                         stat['attributed_to_getargs_order'] = stat.get('attributed_to_getargs_order', 0) + 1
                         out.violations.append(dict(
                             what=('%s: task(s) %s differ from the serial run; all of them are, or depend on, getargs consumers %s whose source task was executed (or failed) in the same run: '
@@ -1245,7 +1274,7 @@ def part_b(ctx, out):
                                   % (label, sorted(who), sorted(r1 & dependents_closure(spec, r1)), detail)),
                             shape='c08:getargs-consumer-check-not-ordered-after-source', case=dict(common_case, consumers=sorted(r1))))
                         diffs = []
-                    elif r2 and who <= dependents_closure(spec, r2):
+                    elif r2 and who <= reach_of(spec, r2):
                         stat['attributed_to_placeholder'] = stat.get('attributed_to_placeholder', 0) + 1
                         out.violations.append(dict(
                             what=('%s: sub-task(s) %s of a delayed creator were selected by name and the creator\'s trigger task %r %s: the node built from the by-name '
@@ -1253,7 +1282,7 @@ def part_b(ctx, out):
                                   'completion order.  %s' % (label, sorted(r2), spec['delayed']['executed'], ns_cmp['outcome'].get(spec['delayed']['executed']), detail)),
                             shape='c08:delayed-subtask-by-name-after-failed-trigger', case=dict(common_case, subtasks=sorted(r2))))
                         diffs = []
-                    elif (r1 or r2) and who <= dependents_closure(spec, r1 | r2):
+                    elif (r1 or r2) and who <= reach_of(spec, r1 | r2):
                         stat['attributed_to_getargs_order'] = stat.get('attributed_to_getargs_order', 0) + 1
                         out.violations.append(dict(
                             what='%s: task(s) %s differ; all reachable from getargs consumers %s / by-name delayed sub-tasks %s (see the two root causes).  %s'
@@ -1359,9 +1388,9 @@ def replay(ctx, payload):
         who = differing_tasks(spec, ns, np_)
         r1, r2 = known_root_causes(spec, ns, np_)
         print('tasks that differ:', sorted(who))
-        if r1 and who <= dependents_closure(spec, r1 | r2):
+        if r1 and who <= reach_of(spec, r1 | r2):
             print('ATTRIBUTED-TO c08:getargs-consumer-check-not-ordered-after-source, consumers', sorted(r1), 'by-name delayed sub-tasks', sorted(r2))
-        elif r2 and who <= dependents_closure(spec, r2):
+        elif r2 and who <= reach_of(spec, r2):
             print('ATTRIBUTED-TO c08:delayed-subtask-by-name-after-failed-trigger', sorted(r2))
     for c, r in res.items():
         for shape, what in oracle_c(spec, r, c[0], c[1])[0]:
